@@ -59,9 +59,13 @@ func (r *rwRT) ruleTmplRange() {
 				bodyRef, _ := r.heapNode(st, "BlockStmt", map[string]AV{"List": leafSym("n.Body.List")})
 				nRef, _ := r.heapNode(st, "RangeStmt", map[string]AV{"Key": key, "Value": val, "Tok": r.tokConst(tok), "X": exprLeaf(r, "n.X"), "Body": bodyRef})
 				gen := r.nameGenerator()
-				in := r.interp(rwConfig{root: fn, boundaries: map[string]bool{gen.Name(): true}})
+				genName := "-"
+				if gen != nil {
+					genName = gen.Name()
+				}
+				in := r.interp(rwConfig{root: fn, boundaries: map[string]bool{genName: true}})
 				in.OnCall = wrapOnCall(in.OnCall, func(cc *CallCtx) []Answer {
-					if cc.Fn != nil && bodyOf(cc.Fn) == gen {
+					if cc.Fn != nil && gen != nil && bodyOf(cc.Fn) == gen {
 						return []Answer{{Ret: []AV{Sym{Name: "gensym()"}}, Label: "gensym"}}
 					}
 					return nil
